@@ -53,7 +53,9 @@ fn hav(ax: f32, ay: f32, bx: f32, by: f32) -> f64 {
 }
 
 /// expected outcome for one point: (set of acceptable ids, must_error, on_boundary)
-fn expect(cands: &[(usize, f32, f32)], px: f64, py: f64, tol: &Option<(f64, DistanceUnit)>) -> (Vec<usize>, bool, bool) {
+/// `near_ties`: away from the origin of the coordinate system the f32 coordinates carry rounding of the size of 1e-6 degrees,
+/// so candidates that are equally far on paper differ in the last bits: all within 0.1 % of the least distance are accepted
+fn expect(cands: &[(usize, f32, f32)], px: f64, py: f64, tol: &Option<(f64, DistanceUnit)>, near_ties: bool) -> (Vec<usize>, bool, bool) {
     let (fx, fy) = (px as f32, py as f32);
     let d2 = |c: &(usize, f32, f32)| {
         let dx = c.1 - fx;
@@ -64,7 +66,7 @@ fn expect(cands: &[(usize, f32, f32)], px: f64, py: f64, tol: &Option<(f64, Dist
         return (vec![], true, false);
     }
     let best = cands.iter().map(d2).fold(f32::INFINITY, f32::min);
-    let argmin: Vec<&(usize, f32, f32)> = cands.iter().filter(|c| d2(c) == best).collect();
+    let argmin: Vec<&(usize, f32, f32)> = cands.iter().filter(|c| d2(c) == best || (near_ties && d2(c) <= best * 1.001 + 1e-12)).collect();
     let ids: Vec<usize> = argmin.iter().map(|c| c.0).collect();
     match tol {
         None => (ids, false, false),
@@ -80,13 +82,22 @@ fn expect(cands: &[(usize, f32, f32)], px: f64, py: f64, tol: &Option<(f64, Dist
     }
 }
 
-fn check_vertex(scratch: &Scratch, mask: u32, tier: Tier, st: &mut Stats) {
+/// where the vertex lattice sits: at the equator (a degree of longitude is as long as one of latitude) and at 60 N / 45 S (it is
+/// half / 0.7 as long: nearest in coordinates and nearest on the ground differ)
+const ORIGINS: [(f32, f32); 3] = [(0.0, 0.0), (10.0, 60.0), (-70.0, -45.0)];
+
+fn check_vertex(scratch: &Scratch, mask: u32, origin: usize, tier: Tier, st: &mut Stats) {
     st.states += 1;
+    let (ox, oy) = ORIGINS[origin];
+    let lattice = |i: usize| -> (f32, f32) {
+        let (x, y) = lattice(i);
+        (ox + x, oy + y)
+    };
     let verts: Vec<usize> = (0..9).filter(|i| mask >> i & 1 == 1).collect();
     if verts.len() >= 2 {
         st.nontrivial += 1;
     }
-    let file = scratch.path.join(format!("v{}.csv", mask));
+    let file = scratch.path.join(format!("v{}_{}.csv", mask, origin));
     let mut s = String::from("vertex_id,x,y\n");
     for (id, li) in verts.iter().enumerate() {
         let (x, y) = lattice(*li);
@@ -94,10 +105,10 @@ fn check_vertex(scratch: &Scratch, mask: u32, tier: Tier, st: &mut Stats) {
     }
     std::fs::write(&file, s).expect("write");
     let cands: Vec<(usize, f32, f32)> = verts.iter().enumerate().map(|(id, li)| (id, lattice(*li).0, lattice(*li).1)).collect();
-    let pts = query_points();
+    let pts: Vec<(f64, f64)> = query_points().into_iter().map(|(x, y)| (ox as f64 + x, oy as f64 + y)).collect();
     for (ti, (tol, unit_mode)) in tolerances().iter().enumerate() {
         let unit_mode = *unit_mode;
-        if tier == Tier::Quick && ti != 0 && (ti + mask as usize) % 4 != 0 {
+        if tier == Tier::Quick && ti != 0 && (ti + mask as usize + origin) % 4 != 0 {
             continue;
         }
         // built the way the application builds it: by the plugin builder from its configuration (tolerance and unit as
@@ -144,10 +155,10 @@ fn check_vertex(scratch: &Scratch, mask: u32, tier: Tier, st: &mut Stats) {
                 }
                 let before = q.clone();
                 let size = verts.len() as u64 * 1000 + pi as u64;
-                let case = || json!({"kind": "vertex", "lattice_vertices": verts, "tolerance": tol.as_ref().map(|t| (t.0, t.1.to_string())), "unit_written": unit_mode, "query": before});
+                let case = || json!({"kind": "vertex", "lattice_vertices": verts, "lattice_origin": origin, "tolerance": tol.as_ref().map(|t| (t.0, t.1.to_string())), "unit_written": unit_mode, "query": before});
                 let r = guarded(|| plugin.process(&mut q).map_err(|e| e.to_string()));
-                let (o_ids, o_err, o_bd) = expect(&cands, *px, *py, tol);
-                let (d_ids, d_err, d_bd) = if with_dest { expect(&cands, dx, dy, tol) } else { (vec![], false, false) };
+                let (o_ids, o_err, o_bd) = expect(&cands, *px, *py, tol, origin != 0);
+                let (d_ids, d_err, d_bd) = if with_dest { expect(&cands, dx, dy, tol, origin != 0) } else { (vec![], false, false) };
                 if o_bd || d_bd {
                     st.skipped_boundary += 1;
                     continue;
@@ -382,7 +393,7 @@ fn check_edges(scratch: &Scratch, si: usize, tier: Tier, st: &mut Stats) {
                 let size = m as u64 * 1000 + pi as u64;
                 let case = || json!({"kind": "edge", "edge_set": si, "edges": edges, "shapes": shapes, "tolerance": tol.as_ref().map(|t| (t.0, t.1.to_string())), "unit_written": unit_mode, "filter": fname, "query": before});
                 let r = guarded(|| plugin.process(&mut q).map_err(|e| e.to_string()));
-                let (ids, must_err, bd) = expect(&admissible, *px, *py, tol);
+                let (ids, must_err, bd) = expect(&admissible, *px, *py, tol, false);
                 // the matcher gives up at the first candidate (admissible or not) beyond the tolerance; when an inadmissible
                 // candidate nearer than the nearest admissible one straddles the tolerance the statement and the early exit agree
                 if bd {
@@ -436,7 +447,9 @@ pub fn run(tier: Tier) -> i32 {
     let masks: Vec<u32> = (1u32..512).filter(|m| tier == Tier::Thorough || m.count_ones() <= 4 || m.count_ones() >= 7).collect();
     let mut st = par_blocks(masks.len() as u64, 4, |lo, hi, st| {
         for i in lo..hi {
-            check_vertex(&scratch, masks[i as usize], tier, st);
+            for origin in 0..ORIGINS.len() {
+                check_vertex(&scratch, masks[i as usize], origin, tier, st);
+            }
         }
     });
     let n_sets = edge_sets().len() as u64;
@@ -482,7 +495,8 @@ pub fn replay(case: &Value) -> i32 {
                 println!("MACHINERY-ERROR no vertex set in the case");
                 return 2;
             }
-            check_vertex(&scratch, mask, Tier::Thorough, &mut st);
+            let origin = (c["lattice_origin"].as_u64().unwrap_or(0) as usize).min(ORIGINS.len() - 1);
+            check_vertex(&scratch, mask, origin, Tier::Thorough, &mut st);
         }
         _ => {
             println!("C16 replay: unknown kind of case; re-running the quick tier");
